@@ -39,6 +39,17 @@ def configs(tier, seed):
                 else:
                     cfg["keylog_label"] = lab
                 out.append(cfg)
+    # history: the connection under test is set up after another one with other parameters in the same process (stale state, caches)
+    names = dict(c01.all_suites())
+    for v, code, wcode in (("TLS13", 0x1302, 0x1301), ("TLS13", 0x1301, 0x1302), ("TLS13", 0x1303, 0x1301), ("TLS12", 0x009d, 0x009c), ("TLS12", 0x009c, 0x009d),
+                           ("TLS12", 0x0035, 0x002f), ("TLS10", 0x002f, 0x000a), ("TLS12", 0x003c, 0x009d)):
+        base = {"harness": "tls", "version": v, "records": 0, "grouping": "separate", "ipv": 4}
+        if v == "TLS13":
+            base["hs_secrets"] = True
+        else:
+            base["keylog_label"] = "CLIENT_RANDOM"
+        out.append({**base, "name": "%s-%04x-after-%04x" % (v, code, wcode), "suite": code, "suite_name": names[code],
+                    "warmup": {**base, "suite": wcode, "suite_name": names[wcode]}})
     for suite in (0x1301, 0x1302, 0x1303, 0x1304):
         shapes = [(8, 4, 8), (0, 0, 0), (20, 20, 20)] if tier == "quick" else [(n, n, n) for n in range(0, 21)]
         for od, cc, sc in shapes:
@@ -54,6 +65,7 @@ def configs(tier, seed):
 def bounds(tier):
     return {"suites": "every (cipher, MAC) behaviour class x version" + (" (all table entries)" if tier == "thorough" else " (one entry per class)"),
             "symbolic": "master / pre-master / traffic secrets, both randoms (all bytes)", "key-log labels": "CLIENT_RANDOM, RSA; TLS 1.3 with and without handshake secrets",
+            "history": "8 pairs (connection under test set up after a connection with another key length / hash / cipher in the same process)",
             "QUIC": "4 suites x connection-id lengths {0, 8, 20} (thorough: 0..20) x initial/handshake/0-RTT/1-RTT/header-protection keys x 3 key-update generations x Retry", "outside": "QUIC v2"}
 
 
@@ -155,6 +167,13 @@ def run_config(cfg):
 
     def scenario():
         c = ctx()
+        try:
+            if cfg.get("warmup"):
+                witems, wkeylog, _ = SC.build(cfg["warmup"], SC.SymSrc("w."))
+                P.run_tls(mods, P.tcp_frames(P.Endpoint(ipv=4, c_port=50001), witems), P.keylog_objects(mods, wkeylog))
+        except Exception as e:
+            c.fail("no-exception", "warm-up connection: %s: %s" % (type(e).__name__, e))
+            return {"outcome": "exception"}
         src = SC.SymSrc()
         items, keylog, meta = SC.build(cfg, src)
         ep = P.Endpoint(ipv=4)
@@ -239,11 +258,24 @@ def _concrete(cfg, inp):
     from tlv.harness import pipeline as P
     from tlv.oracle import scenario as SC
     src = SC.ConcreteSrc(inp)
+    main.server_ports[:] = [443, 44330]
+    if cfg.get("warmup"):
+        try:
+            witems, wkeylog, _ = SC.build(cfg["warmup"], SC.ConcreteSrc(inp, prefix="w."))
+            wkl = [Key("%s %s %s" % (l, bytes(a).hex(), bytes(b).hex())) for l, a, b in wkeylog]
+            ws = []
+            for frame, ts in e2e.concrete_frames(P.Endpoint(ipv=4, c_port=50001), witems):
+                p = Packet(frame, ts / 1e6)
+                if p.tcp_packet and len(p.tls_data):
+                    main.handle_packet(p, None, wkl, ws, {}, True, exp_meta=False)
+            for s in ws:
+                s.decrypt()
+        except Exception as e:
+            return {"ok": False, "problems": ["warm-up connection: exception %s: %s" % (type(e).__name__, e)]}
     items, keylog, meta = SC.build(cfg, src)
     ep = P.Endpoint(ipv=4)
     sessions = []
     kl = [Key("%s %s %s" % (l, bytes(a).hex(), bytes(b).hex())) for l, a, b in keylog]
-    main.server_ports[:] = [443, 44330]
     try:
         for frame, ts in e2e.concrete_frames(ep, items):
             p = Packet(frame, ts / 1e6)
